@@ -92,7 +92,7 @@ def cases(tier, seed, info):
     cli = []
     for sw in switches:
         for ss in subsets:
-            for mode in ('list', 'all', 'count'):
+            for mode in ('list', 'all', 'count', 'json'):
                 cli.append(dict(o=_opt(sw, ss, 'none'), mode=mode))
     for lk in ('plid', 'src', 'srcExclude'):
         cli.append(dict(o=_opt((False,) * 6, [], lk), mode=lk))
@@ -183,7 +183,8 @@ def _argv(o, mode, d):
                       ('only', '-O')):
         if o[key]:
             a.append(flag)
-    a += {'list': ['-l'], 'all': ['-a'], 'count': ['-n'], 'plid': ['--plid', '0x50000001'],
+    a += {'list': ['-l'], 'all': ['-a'], 'count': ['-n'], 'json': ['-j', '-o', os.path.join(os.path.dirname(d), 'c07out')],
+          'plid': ['--plid', '0x50000001'],
           'src': ['--src', 'BD8D'],
           'srcExclude': ['--src-exclude', os.path.join(os.path.dirname(d), 'c07_exclude.txt')]}[mode]
     if o['sevs']:
@@ -201,14 +202,28 @@ def _cli(case):
     recs = []
     for run in case['runs']:
         o, mode = run['o'], run['mode']
+        outd = os.path.join(os.path.dirname(d), 'c07out')
+        if mode == 'json':
+            import shutil
+            shutil.rmtree(outd, ignore_errors=True)
+            os.makedirs(outd)
         res = seams.run_cli(_argv(o, mode, d))
         rec = dict(kind='cli', o=o, mode=mode, pels=pels, selected=[], count=-1, exit=res['exit'],
                    shape_ok=True, argv=_argv(o, mode, '<dir>'))
         try:
             if res['uncaught']:
                 raise ValueError('uncaught: ' + res['uncaught'][-300:])
-            doc = json.loads(res['out'])
-            if mode == 'count':
+            if mode == 'json':
+                # one <file>.<EID>.json per selected PEL
+                names = sorted(os.listdir(outd))
+                rec['selected'] = [_eid_num(n.split('.')[-2]) for n in names]
+                rec['count'] = len(names)
+                doc = None
+            else:
+                doc = json.loads(res['out'])
+            if mode == 'json':
+                pass
+            elif mode == 'count':
                 rec['count'] = int(doc['Number of PELs found'])
             elif mode == 'all':
                 rec['selected'] = [_eid_num(x['Private Header']['Entry Id']) for x in doc]
